@@ -15,7 +15,7 @@ RULE = (
     "lengths (incl. length 0 or 1 against n) must raise for every combination; Array.FromScalars(scalars)[i] is "
     "scalars[i] re-expressed in the array's unit (db float conversion, 1e-12*S) with mixed units/categories, also "
     "with unit=/category= given; Array.GetValues(unit)[i] == Scalar(a_i).GetValue(unit) for every container kind; where the Scalar conversion is not a number (a unit of another quantity type is rejected, the Unknown quantity returns the amount unchanged) every container kind does the same; a plain number as the other operand (either side, + - * / //) gives element by element what the Scalars give; all of it also on the simple length/time filler whose units are formula strings. "
-    "Non-trivial = length >= 2 and (containers differ or units differ); key = (containers, op, length, quantities)."
+    "Array operations and conversions made while a project database is current give what the Scalars gave while their own database was current; products and quotients also over units with an offset. Non-trivial = length >= 2 and (containers differ or units differ); key = (containers, op, length, quantities)."
 )
 ASSUMPTIONS = [
     "one-dimensional containers of finite floats; right operands non-zero for / and //",
@@ -59,6 +59,20 @@ def _q(spec):
         if e == 1:
             return ObtainQuantity(u, c)
     return Quantity.CreateDerived(OrderedDict((c, [u, e]) for c, (u, e) in d.items()))
+
+
+_SKEWED = None
+
+
+def _same_repr_value(a, b):
+    """two Scalar reprs 'Scalar(v, unit, category)': same unit and category, values equal up to rounding"""
+    import re
+
+    ma, mb = re.match(r"^\w+\((.*?), (.*)\)$", a), re.match(r"^\w+\((.*?), (.*)\)$", b)
+    if not ma or not mb or ma.group(2) != mb.group(2):
+        return False
+    x, y = float(ma.group(1)), float(mb.group(1))
+    return x == y or abs(x - y) <= 1e-12 * (abs(x) + abs(y)) or (x != x and y != y)
 
 
 class Checker:
@@ -281,6 +295,40 @@ class Checker:
         if vals:
             ctx.nontrivial(("number", op, case["side"], len(vals), repr(sorted(case["q"]["d"].items()))))
 
+    # -- the operands' own database decides, not the one that happens to be current --------------------------------
+    def check_other_database_current(self, case):
+        """case: other_db=True, ua, ub, va, vb, op.  Arrays and Scalars of this database are operated on while a
+        project database (same symbols, other factors) is current: element by element what the Scalars gave while
+        their own database was current."""
+        from barril.units import Array, Scalar
+
+        ctx = self.ctx
+        ua, ub, va, vb, op = case["ua"], case["ub"], list(case["va"]), list(case["vb"]), case["op"]
+        n = min(len(va), len(vb))
+        va, vb = va[:n], vb[:n]
+        if op in ("/", "//") and any(y == 0 for y in vb):
+            return
+        ref = [repr(_apply(op, Scalar(x, ua), Scalar(y, ub))) for x, y in zip(va, vb)]
+        same_type = Scalar(1.0, ua).GetQuantityType() == Scalar(1.0, ub).GetQuantityType()
+        conv = [Scalar(x, ua).GetValue(ub) for x in va] if same_type else None
+        global _SKEWED
+        if _SKEWED is None:
+            _SKEWED = env.skewed_db()
+        arrays = [(k, Array(gen.as_container(k, va), ua), Array(gen.as_container(k, vb), ub)) for k in KINDS]
+        ctx.ev()
+        with env.pushed(_SKEWED):
+            for k, A, B in arrays:
+                R = _apply(op, A, B)
+                got = [repr(Scalar.CreateWithQuantity(R.GetQuantity(), float(t))) for t in R.GetValues()]
+                gconv = [float(t) for t in A.GetValues(ub)] if same_type else None
+                if len(got) != n or any(not _same_repr_value(g, w) for g, w in zip(got, ref)):
+                    ctx.fail("array_op_depends_on_the_current_database:%s" % op, dict(case, kind=k), "Array(%s) %r %s %r while a project database is current gives %r, the Scalars (own database current) gave %r" % (k, A, op, B, got, ref))
+                if same_type and any(not core.close(g, w, abs(w) + 1.0, 1e-12) for g, w in zip(gconv, conv)):
+                    ctx.fail("array_conversion_depends_on_the_current_database", dict(case, kind=k), "Array(%s) %r .GetValues(%r) while a project database is current gives %r, expected %r" % (k, A, ub, gconv, conv))
+        ctx.cls("operated_under_another_current_database")
+        if n:
+            ctx.nontrivial(("other_db", ua, ub, op, n))
+
     # -- conversions whose outcome is not a number: the container kind must not matter either ------------------
     def check_conversion_outcome(self, case):
         """case: outcome=True, source ('simple' | 'unknown'), u, c, v, values.  The Scalar route decides what the
@@ -354,7 +402,8 @@ def _strategies(ch):
         if mode == "simple":
             qt1 = draw(st.one_of(st.sampled_from(pool.fav), st.sampled_from(pool.qts)))
             qt2 = draw(st.one_of(st.sampled_from(pool.fav), st.sampled_from(pool.qts)))
-            ua, ub = draw(st.sampled_from(pool.units[qt1])), draw(st.sampled_from(pool.units[qt2]))
+            # (every unit of the type, offsets included: a product of degC and K matches the units like a sum does)
+            ua, ub = draw(st.sampled_from(um.units(qt1) if draw(st.booleans()) else pool.units[qt1])), draw(st.sampled_from(um.units(qt2) if draw(st.booleans()) else pool.units[qt2]))
             return {"d": {draw(st.sampled_from(cats[qt1])): [ua, 1]}}, {"d": {draw(st.sampled_from(cats[qt2])): [ub, 1]}}
         sa = draw(pool.shape_strategy(max_factors=2, max_exp=2))
         sb = draw(pool.shape_strategy(max_factors=2, max_exp=2))
@@ -426,7 +475,18 @@ def _strategies(ch):
             "side": draw(st.sampled_from(["left", "right"])),
         }
 
-    return op_case(), len_case(), fs_case(), gv_case(), outcome_case(), number_case()
+    shared = [["m", "cm", "km", "ft"], ["s", "min", "h"], ["K", "degC", "degF"]]
+
+    @st.composite
+    def other_db_case(draw):
+        us = draw(st.sampled_from(shared))
+        op = draw(st.sampled_from(OPS))
+        ua = draw(st.sampled_from(us))
+        ub = draw(st.sampled_from(us)) if op in "+-" else draw(st.sampled_from(draw(st.sampled_from(shared))))
+        n = draw(st.integers(0, 3))
+        return {"other_db": True, "ua": ua, "ub": ub, "op": op, "va": draw(vals(n)), "vb": draw(vals(n))}
+
+    return op_case(), len_case(), fs_case(), gv_case(), outcome_case(), number_case(), other_db_case()
 
 
 def _fix(case):
@@ -446,7 +506,7 @@ def run_shard(spec, ctx):
         ch = Checker(ctx, db)
         if kind != "posc":
             ctx.cls("shard_on_%s_database" % kind)
-        op_case, len_case, fs_case, gv_case, outcome_case, number_case = _strategies(ch)
+        op_case, len_case, fs_case, gv_case, outcome_case, number_case, other_db_case = _strategies(ch)
         seed = spec["seed"] * 1000 + spec["shard"]
         n = spec["n"]
 
@@ -466,6 +526,8 @@ def run_shard(spec, ctx):
         core.hunt(ctx, mk(gv_case, ch.check_get_values), seed + 3, max(100, n // 2))
         core.hunt(ctx, mk(outcome_case, ch.check_conversion_outcome), seed + 4, max(100, n // 3))
         core.hunt(ctx, mk(number_case, ch.check_number_operand), seed + 5, max(100, n // 3))
+        if kind == "posc":
+            core.hunt(ctx, mk(other_db_case, ch.check_other_database_current), seed + 6, max(60, n // 6))
 
 
 def replay(case, ctx):
@@ -473,7 +535,9 @@ def replay(case, ctx):
     with env.pushed(db):
         ch = Checker(ctx, db)
         case = _fix(case)
-        if case.get("number"):
+        if case.get("other_db"):
+            fn = ch.check_other_database_current
+        elif case.get("number"):
             fn = ch.check_number_operand
         elif case.get("outcome"):
             fn = ch.check_conversion_outcome
